@@ -1354,9 +1354,16 @@ pub mod enc {
         put_int32s(o, &d);
     }
 
+    thread_local! {
+        /// write every rotation as id 00 + the nine floats, also the 24 that have an id of their own
+        /// ("If the ID is 00 ... the Orientation field is present": a writer may always do that)
+        pub static CFRAME_LONG: std::cell::Cell<bool> = const { std::cell::Cell::new(false) };
+    }
+
     fn put_cframes(o: &mut Vec<u8>, v: &[CFrame]) {
+        let long = CFRAME_LONG.with(|c| c.get());
         for c in v {
-            match rotation_id(&c.orientation) {
+            match rotation_id(&c.orientation).filter(|_| !long) {
                 Some(id) => o.push(id),
                 None => {
                     o.push(0);
@@ -1715,6 +1722,9 @@ pub mod enc {
         /// INST chunk first / last, PROP chunks first / last)
         #[serde(default)]
         pub empty_classes: Vec<(String, Vec<(String, u8)>, bool, bool)>,
+        /// every CFrame rotation in the long form (id 00 + matrix)
+        #[serde(default)]
+        pub cframe_long: bool,
     }
 
     pub fn default_unknown_comp() -> Comp {
@@ -1788,11 +1798,19 @@ pub mod enc {
             junk_last: false,
             switches_impl: true,
             empty_classes: vec![],
+            cframe_long: false,
         }
     }
 
     /// Encodes every node of the plan (the file's roots are the nodes without a parent).
     pub fn encode(plan: &Plan, e: &Encoding) -> Result<Vec<u8>, String> {
+        CFRAME_LONG.with(|c| c.set(e.cframe_long));
+        let r = encode_inner(plan, e);
+        CFRAME_LONG.with(|c| c.set(false));
+        r
+    }
+
+    fn encode_inner(plan: &Plan, e: &Encoding) -> Result<Vec<u8>, String> {
         let sw = if e.switches_impl { Switches { uniqueid_impl: true, faces_impl: true, content_impl: true } } else { Switches::default() };
         let classes = class_names(plan);
         let referent_of = |t: &Tgt| -> i32 {
